@@ -96,6 +96,29 @@ Theorem C15_h264_crop_refuted : exists rec b a,
 Proof. exact h264_crop_refuted. Qed.
 Print Assumptions C15_h264_crop_refuted.
 
+Theorem C15_hevc_sublayer_refuted : exists b a,
+  emit std_h265_sps rec_d29 env0 = Some (b, a) /\
+  go_h265_obs (nal_of_bits b) = Some (64, 64, fps_bits (25, 1), true) /\
+  go_h265_decode_with go_h265_sps_d29 (nal_of_bits b) <> go_h265_obs (nal_of_bits b).
+Proof. exact hevc_sublayer_refuted. Qed.
+Print Assumptions C15_hevc_sublayer_refuted.
+
+Theorem C15_asc_ps_refuted :
+  asc_wf asc_d36 = true /\ spec_rate asc_d36 = 48000 /\
+  go_asc_with ps_take_d36 (asc_bytes asc_d36) = Some (24000, 1) /\
+  go_asc (asc_bytes asc_d36) = Some (48000, 1).
+Proof. exact asc_ps_refuted. Qed.
+Print Assumptions C15_asc_ps_refuted.
+
+(* known finding D30 (not repaired): a valid SPS whose last short-term RPS is predicted from the
+   previous one is rejected by the decoder; this is the class the guard of
+   C15_h265_dims_spec_partial excludes *)
+Theorem C15_hevc_inter_rps_rejected : exists b a,
+  emit std_h265_sps_i rec_d30 env0 = Some (b, a) /\ h265_ranges a = true /\
+  uses_inter_rps a = true /\ go_h265_obs (nal_of_bits b) = None.
+Proof. exact hevc_inter_rps_rejected. Qed.
+Print Assumptions C15_hevc_inter_rps_rejected.
+
 (* the oracles applied to the implementation accept the model on every input *)
 Theorem C15_model_passes : forall rec data,
   ok_h264 rec data (go_h264_obs data) = true /\
